@@ -202,7 +202,7 @@ def mx_stream(run, tmp, model, quick):
     """three-way on closed #/##-free macro tables: non-recursive tables must agree everywhere (model = cppcheck = gcc);
     on recursive tables a cppcheck != gcc difference is the known re-expansion finding iff the model sides with gcc"""
     rng = run.rng
-    n = 120 if quick else 3000
+    n = 80 if quick else 3000
     jobs = []
     for i in range(n):
         rec = i % 4 == 3
